@@ -131,6 +131,32 @@ def check_detect(np, cnn, ridges, rot, ds=1, H=100, W=150):
     if len(b_list) != len(ridges):
         bad.append(('one-line-per-ridge', 'rot %d: %d lines for %d ridges' % (rot, len(b_list), len(ridges))))
         return bad
+    if rot:
+        # metamorphic form of "coordinates refer to the original image within one pixel": analysing the image with rot=k must give
+        # what analysing the explicitly rotated image (rot=0) gives, mapped back through the exact pixel correspondence of np.rot90
+        eng2 = make_engine(cnn)
+        eng2.parsenet = StubNet(np, ds)
+        with contextlib.redirect_stdout(io.StringIO()):
+            p0, b0, h0, t0 = eng2.detect(np.rot90(image, k=rot).copy(), rot=0)
+
+        def back(pts):
+            pts = np.asarray(pts, dtype=float)
+            x, y = pts[:, 0], pts[:, 1]
+            if rot == 1:
+                return np.stack([W - 1 - y, x], axis=1)
+            if rot == 2:
+                return np.stack([W - 1 - x, H - 1 - y], axis=1)
+            return np.stack([y, H - 1 - x], axis=1)
+        for what, got, ref in (('baseline', b_list, b0), ('outline', t_list, t0), ('region', p_list, p0)):
+            if len(got) != len(ref):
+                bad.append(('original-image-coordinates', 'rot %d: %d %ss, the explicitly rotated image gives %d' % (rot, len(got), what, len(ref))))
+                continue
+            for g, r in zip(got, ref):
+                g, r = np.asarray(g, dtype=float), back(r)
+                if g.shape != r.shape or np.abs(g - r).max() > 1.0 + 1e-3:       # float32 coordinates
+                    dev = float(np.abs(g - r).max()) if g.shape == r.shape else float('nan')
+                    bad.append(('original-image-coordinates', 'rot %d, ds %d, page %dx%d: a %s is %.2f px off the position obtained from the explicitly rotated image (1 px allowed)' % (rot, ds, W, H, what, dev)))
+                    break
 
     def to_orig(x, y):
         # exact pre-image of the point (x, y) of the rotated image under np.rot90(image, k=rot)
@@ -180,7 +206,12 @@ def _chunk(items):
         out['evaluations'] += 1
         out['nontrivial'] += 1 if len(ridges) >= 2 else 0
         try:
-            bad = check_parse(np, cnn, ridges, a, b) if kind == 'parse' else check_detect(np, cnn, ridges, a, b)
+            if kind == 'parse':
+                bad = check_parse(np, cnn, ridges, a, b)
+            elif kind == 'detect-odd':       # page sides that are no multiples of the down-sampling factor
+                bad = check_detect(np, cnn, ridges, a, b, H=163, W=241)
+            else:
+                bad = check_detect(np, cnn, ridges, a, b)
         except Exception as e:
             bad = [('no-exception', '%s raised %r' % (kind, e))]
         for clause, detail in bad:
@@ -221,6 +252,10 @@ def plans(thorough):
             out.append(('detect', rid, rot, 1))
             if thorough:
                 out.append(('detect', rid, rot, 2))
+        lim = 241 if rot % 2 == 0 else 163
+        for ds in ((4, 8) if thorough else (4,)):
+            rid = [(20, 40, 120, 0.0, 3.0, 1.0)] if rot % 2 else [(20, 40, 150, 0.0, 3.0, 1.0), (32, 120, 120, 0.0, 2.0, 1.0)]
+            out.append(('detect-odd', tuple(rid), rot, ds))
     return out
 
 
